@@ -168,3 +168,62 @@ class AnchorCov:
                 'partly_covered': {n: d for n, d in sorted(funcs.items()) if 0 < d['hit'] < d['lines']},
                 'note': 'supporting measurement of what the correspondence '
                         'and oracle streams exercised, not a verdict'}
+
+
+# ---------------------------------------------------------------- source-shape guard
+
+HASHES = os.path.join(C.ROOT, 'harness', 'anchor_hashes.json')
+
+
+def anchored_functions(pid):
+    """[(file, qualified name)] of the functions that overlap the anchored line ranges of the property"""
+    out = []
+    for f, rngs in anchors_of(pid).items():
+        try:
+            top = compile(open(f).read(), f, 'exec')
+        except Exception:     # noqa
+            continue
+        stack = [(top, '')]
+        while stack:
+            co, qual = stack.pop()
+            for k in co.co_consts:
+                if hasattr(k, 'co_code') and not k.co_name.startswith('<'):
+                    stack.append((k, (qual + '.' if qual else '') + k.co_name))
+            if co is top:
+                continue
+            lines = sorted({l for (_, _, l) in co.co_lines() if l})
+            if lines and any(lo - 15 <= lines[-1] and lines[0] <= hi + 15 for lo, hi in rngs):
+                out.append((f, qual))
+    return sorted(set(out))
+
+
+def anchored_hashes(pid):
+    """normalised-AST hash (docstrings and comments do not count) of every anchored function"""
+    out = {}
+    for f, qual in anchored_functions(pid):
+        h = C.hash_source(f, qual)
+        if h is not None:
+            out[os.path.relpath(f, C.REPO) + ':' + qual] = h
+    return out
+
+
+def write_baseline():
+    """`./check --hashes`: record the shapes of the anchored functions of the tree the models were validated against"""
+    base = {}
+    for l in open(os.path.join(C.ROOT, 'properties.jsonl')):
+        pid = json.loads(l)['id']
+        base[pid] = anchored_hashes(pid)
+    C.write_json(HASHES, base)
+    return {k: len(v) for k, v in base.items()}
+
+
+def changed_functions(pid):
+    """anchored functions whose shape differs from the recorded one (a changed shape is NOT a failure: it makes the
+    quick tier of the property draw more cases, because the model was validated against another text)"""
+    try:
+        base = json.load(open(HASHES)).get(pid, {})
+    except Exception:     # noqa
+        return []
+    now = anchored_hashes(pid)
+    return sorted(k for k in set(base) | set(now) if base.get(k) != now.get(k))
+
